@@ -7,7 +7,21 @@ _NOT_BUILT = "check not built yet in this session (see DESIGN.md section 4 for t
 _T = "symbolic execution of go/ssa + SMT (z3 bit-vectors/FP), decision-prefix path exploration, counterexample replay on the native build"
 _N = "trusts go/ssa, the engine's instruction semantics and intrinsic models (validated by native replay of sampled passing paths and of every counterexample), the solver; bounds listed per harness in the evidence"
 
+_PROBE = "; generated code comes from api.Generate run at check time on two hand-built probe schemas (all schemas / random schemas are outside the claim), oracle = independent reference executor in probes/ref"
+
 CLAIMED = {
+    "C01": {
+        "text": "bounded: freshly generated executors (2 configurations quick, 7 thorough) executed symbolically with their goroutines; for 9 operation families with symbolic @skip/@include variables and resolver/directive outcomes in {value,null,error} (deviation budget 1 quick / 2 thorough) the data bytes and the multiset of error paths equal an independent reference implementation of the GraphQL execution algorithm",
+        "design_ref": "DESIGN.md section 4, C01", "note": _N + _PROBE, "technique": _T,
+    },
+    "C04": {
+        "text": "bounded fault enumeration decided by the solver-driven explorer: {error, panic} at every resolver/directive position of the families (single faults quick, pairs thorough), on calling and spawned goroutines and list elements, worker_limit 0/1/2: response equals the reference with that position failed, recover hook once per panic, no panic escapes a goroutine",
+        "design_ref": "DESIGN.md section 4, C04", "note": _N + _PROBE, "technique": _T,
+    },
+    "C06": {
+        "text": "bounded schedule exploration: every order of enabled tasks at blocking points (plus preemptions at synchronisation operations in the invalids harness) is a decision of the explorer; on each schedule the response equals the schedule-free reference and a vector-clock happens-before check covers every load/store; mutation root fields proven serial on every schedule",
+        "design_ref": "DESIGN.md section 4, C06", "note": _N + _PROBE + "; race counterexamples are confirmed with go test -race", "technique": _T + "; happens-before race detection over explored schedules",
+    },
     "C03": {
         "text": "bounded: real Executor.CreateOperationContext/parseQuery/DispatchOperation with the real gqlparser interpreted, over a 12-request corpus x symbolic mutator verdicts x cache states x suggestion setting; hook order over all lists of <=3 extensions from 5 hook subsets; the solver decides every branch and assertion inside these bounds",
         "design_ref": "DESIGN.md section 4, C03", "note": _N, "technique": _T,
